@@ -15,7 +15,7 @@ TInit == /\ tid \in 1..NT /\ l = 1
          /\ scn = Traces[tid].scn
          /\ blk = [i \in 1..Len(ScnOf(scn).xs) |-> MkBlock(ScnOf(scn), i, Traces[tid].dyn[i])]
          /\ env = [i \in 1..Len(ScnOf(scn).xs) |-> 0]
-         /\ enabled = TRUE /\ reps = <<>> /\ tvalid = TRUE /\ unrep = <<>> /\ grp = <<>>
+         /\ enabled = TRUE /\ ctl = ScnOf(scn).ctl /\ reps = <<>> /\ temps = NoTemps /\ unrep = <<>> /\ grp = <<>> /\ ret = <<>> /\ colls = <<>>
          /\ genv = [i \in 1..Len(ScnOf(scn).xs) |-> 0]
          /\ err = "" /\ act = [n |-> "Init"] /\ hist = <<>>
 Ev == Traces[tid].ev[l]
@@ -28,6 +28,7 @@ Step ==
     \/ TA.n = "Enable" /\ Enable
     \/ TA.n = "Make" /\ MakeGroups
     \/ TA.n = "Create" /\ CreateReps
+    \/ TA.n = "Use" /\ UseExisting(TA.l)
 ObsMatch == \/ DObs' = Ev.post
             \/ /\ DObs' # Ev.post
                /\ PrintT(ToJson([mismatch |-> Traces[tid].id, at |-> l, expected |-> DObs']))
